@@ -14,6 +14,10 @@ PENDING = "static check not built yet in this session (see DESIGN.md section 4 f
 
 # id -> (technique, level text, level note, design ref)
 CLAIMS = {
+    "C07": ("effect confinement of flag-controlled regions (T6): for every test of a restriction flag, the blocks reachable only from its 'set' edge must be pure conditions or error blocks; constant relation on MEMPOOL_MODE; interprocedural error-swallowing rule",
+            "Decides for EVERY test of NO_UNKNOWN_OPS / CANONICAL_INTS / DISABLE_OP / LIMIT_SOFTFORK / LIMITS in the library that the flag can only reject, that RELAXED_BLS only removes validation, that MEMPOOL_MODE is made of restriction flags, and that no caller turns a flag-caused error into a success. One audited exception (uint_atom) and one known finding (softfork argument errors swallowed in lenient mode).",
+            "Trusts rustc's MIR and the purity whitelist of callee names used inside conditions; LIMIT_HEAP is a caller-chosen allocator parameter (monotone by C13).",
+            "DESIGN.md 4/C07"),
     "C12": ("path-sensitive effect counting over MIR (forward dataflow, T3) + field-matched checkpoint tables",
             "Decides a structural necessary condition on ALL paths of ALL allocation entry points: per successful path exactly one atom / one heap contribution / one pair, none on failing paths; restore field coverage; reporters. Not the arithmetic of sizes.",
             "Trusts rustc's MIR and the effect recogniser (Vec method names, ghost counter field names resolved by type); bulk append loop tied to the checked size by C13. Known finding: new_substr small-integer slice counted on the heap.",
